@@ -267,6 +267,7 @@ func pow2(k uint) T { return bigNum(new(big.Int).Lsh(big.NewInt(1), k)) }
 // prelude
 
 const preludeCore = `
+(declare-fun stamp (Int) Int)
 (define-fun tdiv ((a Int) (b Int)) Int (ite (>= a 0) (div a b) (- (div (- a) b))))
 (define-fun tmod ((a Int) (b Int)) Int (ite (>= a 0) (mod a (ite (>= b 0) b (- b))) (- (mod (- a) (ite (>= b 0) b (- b))))))
 (define-fun imin ((a Int) (b Int)) Int (ite (<= a b) a b))
@@ -300,8 +301,9 @@ const preludeSeq = `
 (assert (forall ((i Int)) (! (= (select zeroSArr i) empty) :pattern ((select zeroSArr i)))))
 (assert (forall ((s BSeq)) (! (>= (len s) 0) :pattern ((len s)))))
 (assert (= (len empty) 0))
-(assert (forall ((a BSeq) (b BSeq)) (! (= (SeqEq a b) (and (= (len a) (len b))
-   (forall ((k Int)) (! (=> (and (<= 0 k) (< k (len a))) (= (at a k) (at b k))) :pattern ((at a k)) :pattern ((at b k))))))
+(declare-fun sk!seq (BSeq BSeq) Int)
+(assert (forall ((a BSeq) (b BSeq)) (! (or (SeqEq a b) (not (= (len a) (len b)))
+   (and (<= 0 (sk!seq a b)) (< (sk!seq a b) (len a)) (not (= (at a (sk!seq a b)) (at b (sk!seq a b))))))
    :pattern ((SeqEq a b)))))
 (assert (forall ((a BSeq) (b BSeq)) (! (=> (SeqEq a b) (= a b)) :pattern ((SeqEq a b)))))
 (assert (forall ((a BSeq) (b BSeq)) (! (= (len (cat a b)) (+ (len a) (len b))) :pattern ((cat a b)))))
@@ -314,7 +316,8 @@ const preludeSeq = `
 (assert (forall ((a (Array Int Int)) (o Int) (n Int)) (! (=> (>= n 0) (= (len (view a o n)) n)) :pattern ((view a o n)))))
 (assert (forall ((a (Array Int Int)) (o Int) (n Int) (k Int)) (! (= (at (view a o n) k) (select a (+ o k))) :pattern ((at (view a o n) k)))))
 (assert (forall ((a BSeq)) (! (and (= (cat a empty) a) (= (cat empty a) a)) :pattern ((cat a empty)) :pattern ((cat empty a)))))
-(assert (forall ((a BSeq) (b BSeq) (c BSeq)) (! (= (cat (cat a b) c) (cat a (cat b c))) :pattern ((cat (cat a b) c)))))
+; (associativity of cat is deliberately not an axiom: it is a matching-loop generator; contracts
+;  write concatenations left-nested, as the code builds them)
 (assert (forall ((s BSeq)) (! (= (sub s 0 (len s)) s) :pattern ((sub s 0 (len s))))))
 `
 
